@@ -484,6 +484,7 @@ def check(model, tier):
     _dispatch1.r_only_deduplication_merges_rows(ctx, "R01.20")
     _rowseval1.r_sliced_is_window(ctx, "R01.21")
     _dispatch1.r_execute_direct_operands(ctx, "R01.22")
+    _dispatch1.r_to_mapping_shortcut(ctx, "R01.23")
     from ..rules.foundation import run_foundation
 
     run_foundation(ctx, "01")
